@@ -62,6 +62,8 @@ type c14Case struct {
 	Curve   int     `json:"curve"`            // 256, 384, 521; 0 = Ed25519
 	D       rc.Hex  `json:"d"`                // private scalar (big-endian, exactly as used) or Ed25519 seed
 	XZero   bool    `json:"x_zero,omitempty"` // the point (0, sqrt(b)) (public key only)
+	PubX    rc.Hex  `json:"pub_x,omitempty"`  // public key only: the point with this x coordinate (and the odd / even y)
+	PubYOdd bool    `json:"pub_y_odd,omitempty"`
 	Kid     rc.Hex  `json:"kid,omitempty"`
 	Ops     []int64 `json:"ops,omitempty"`
 	HasOps  bool    `json:"has_ops,omitempty"`
@@ -157,7 +159,13 @@ func checkC14(c c14Case) error {
 		curve := curveOf(c.Curve)
 		size = (curve.Params().BitSize + 7) / 8
 		alg = map[int]int64{256: refcose.AlgES256, 384: refcose.AlgES384, 521: refcose.AlgES512}[c.Curve]
-		if c.XZero {
+		if len(c.PubX) > 0 {
+			y := c14YFor(curve, new(big.Int).SetBytes(c.PubX), c.PubYOdd)
+			if y == nil {
+				return fmt.Errorf("harness: no point with x=%x on P-%d", []byte(c.PubX), c.Curve)
+			}
+			pub = &ecdsa.PublicKey{Curve: curve, X: new(big.Int).SetBytes(c.PubX), Y: y}
+		} else if c.XZero {
 			p := curve.Params()
 			y := new(big.Int).ModSqrt(p.B, p.P)
 			if y == nil {
@@ -201,7 +209,7 @@ func checkC14(c c14Case) error {
 	if re, err := kp2.MarshalCBOR(); err != nil || !bytes.Equal(re, bp) {
 		return finding("key-reencode", "decoded key re-encodes differently (err=%v)\n in=%x\nout=%x", err, bp, re)
 	}
-	if c.XZero {
+	if c.XZero || len(c.PubX) > 0 {
 		stats.Class("x-zero-point")
 		return nil
 	}
@@ -465,6 +473,30 @@ func TestC14_Keys(t *testing.T) {
 	})
 }
 
+// c14YFor returns the y with the wanted parity such that (x, y) is on the curve, or nil.
+func c14YFor(curve elliptic.Curve, x *big.Int, odd bool) *big.Int {
+	p := curve.Params()
+	if x.Cmp(p.P) >= 0 {
+		return nil
+	}
+	// y^2 = x^3 - 3x + b
+	rhs := new(big.Int).Exp(x, big.NewInt(3), p.P)
+	rhs.Sub(rhs, new(big.Int).Mul(x, big.NewInt(3)))
+	rhs.Add(rhs, p.B)
+	rhs.Mod(rhs, p.P)
+	y := new(big.Int).ModSqrt(rhs, p.P)
+	if y == nil {
+		return nil
+	}
+	if (y.Bit(0) == 1) != odd {
+		y.Sub(p.P, y)
+	}
+	if !curve.IsOnCurve(x, y) {
+		return nil
+	}
+	return y
+}
+
 // TestC14_Table runs every tabulated short-coordinate scalar (and its
 // negation) and the x = 0 points.
 func TestC14_Table(t *testing.T) {
@@ -494,6 +526,31 @@ func TestC14_Table(t *testing.T) {
 		n++
 		stats.Eval()
 		judge(t, "c14", c14Case{Curve: cv, XZero: true, Message: rc.Hex{}}, checkC14)
+	}
+	// public keys whose x coordinate lies at the ends of the field and around the group order n (n < p on all
+	// three curves: the x values in [n, p) are valid coordinates that no random key will ever show)
+	for _, cv := range []int{256, 384, 521} {
+		p := curveOf(cv).Params()
+		for _, base := range []struct {
+			from *big.Int
+			step int64
+			name string
+		}{{big.NewInt(1), 1, "x-smallest"}, {new(big.Int).Sub(p.P, big.NewInt(1)), -1, "x-largest"}, {new(big.Int).Set(p.N), 1, "x-from-group-order-up"}, {new(big.Int).Sub(p.N, big.NewInt(1)), -1, "x-below-group-order"}} {
+			found := 0
+			for k := int64(0); k < 200 && found < 6; k++ {
+				x := new(big.Int).Add(base.from, big.NewInt(k*base.step))
+				for _, odd := range []bool{false, true} {
+					if c14YFor(curveOf(cv), x, odd) == nil {
+						continue
+					}
+					n++
+					found++
+					stats.Eval()
+					stats.Class("table/public-point/" + base.name)
+					judge(t, "c14", c14Case{Curve: cv, PubX: x.Bytes(), PubYOdd: odd, Message: rc.Hex{}}, checkC14)
+				}
+			}
+		}
 	}
 	stats.ExhaustivePart("tabulated short-coordinate keys", n)
 }
